@@ -160,6 +160,7 @@ pub fn replay_step(v: &Value) -> Value {
             "a" => "a1\n",
             "b" => "b2\n",
             "c" => "c3\n",
+            "e" => "\u{e9}5\u{6f22}\n",
             _ => "d4\n",
         }
         .to_string()
@@ -212,4 +213,10 @@ pub fn replay_step(v: &Value) -> Value {
     }
     let _ = std::fs::remove_dir_all(&dir);
     json!({"ok": r.is_ok(), "authors": per_line})
+}
+
+/// K4b: {mode}
+pub fn blob_mode(v: &Value) -> Value {
+    let m = String::from_utf8(crate::bytes_of(&v["mode"])).unwrap();
+    json!({"is_blob": git_ai::authorship::rebase_authorship::verif_hooks::is_blob_mode(&m)})
 }
